@@ -74,6 +74,9 @@ func genCase(t *rapid.T) Case {
 		}
 		if faulty && rapid.IntRange(0, 1).Draw(t, "fail") == 0 {
 			b = lite.Behaviour{Kind: rapid.SampledFrom([]int{lite.BehError, lite.BehPartialThenError, lite.BehHang}).Draw(t, "failkind")}
+			// how the failing call / stream ends: a plain error, gRPC status Canceled / Unknown / DeadlineExceeded /
+			// Internal / Unavailable, or the bare context.Canceled value (-1) while the query's own context is alive
+			b.Code = rapid.SampledFrom([]int{0, 0, 1, 1, 2, 4, 13, 14, -1, -1}).Draw(t, "code")
 		}
 		c.Beh = append(c.Beh, b)
 	}
